@@ -178,13 +178,16 @@ theorem inv_setThread {P : Progs} {s : State} {t : Tid} {th th' : Thread} (h : I
 theorem inv_setThread_simple {P : Progs} {s : State} {t : Tid} {th th' : Thread} (h : Inv P s)
     (ht : s.threads t = some th) (hT : TInv P.svc s t th')
     (hop : th'.op = th.op) (hcl : th'.a.cl = th.a.cl) (hrm : th'.a.rm = th.a.rm) (hrs : th'.a.rs = th.a.rs)
-    (hrr : th'.a.rr = th.a.rr) (hmid : th'.a.mid = th.a.mid) (hpres : th'.present = th.present) :
+    (hrr : th'.a.rr = th.a.rr) (hmid : th'.a.mid = th.a.mid) (hpres : th'.present = th.present)
+    (hsr : th.a.sr = true → th'.a.sr = true) :
     Inv P (setThread s t th') := by
   refine inv_setThread h ht hT hop hcl ?_ ?_ ?_ ?_ ?_
   · intro _; left; rw [hrm]; exact id
   · intro _; left; rw [hrs]; exact id
   · intro _; left; rw [hrr]; exact id
-  · intro _; simp [A.cleaned, hcl, hrm, hrs, hrr]
+  · intro hc hcln
+    simp only [A.cleaned, hcl, hrm, hrs, hrr, hc, Bool.not_true, Bool.false_or, Bool.and_eq_true] at hcln ⊢
+    exact ⟨hcln.1, hsr hcln.2⟩
   · intro k e _ m _ pk; right; exact ⟨hmid ▸ m, hpres ▸ pk⟩
 
 theorem inv_wset {P : Progs} {s : State} (h : Inv P s) (x : List Name) : Inv P { s with wset := x } :=
